@@ -12,7 +12,7 @@ import (
 )
 
 func ruleC19Unwrap(p *Prog, a *Anchors, r *Report) {
-	r.Begin("R-C19-UNWRAP", "the evaluator inside a node that carries a filter chain is taken out of that node (outside the node's own methods) only where the chain was shown to be empty: no short cut drops a written filter", 1)
+	r.Begin("R-C19-UNWRAP", "the evaluator inside a node that carries a filter chain is taken out of that node (outside the node's own methods) only where the chain was shown to be empty: no short cut drops a written filter", 0)
 	// the node type: an IEvaluator implementer with an IEvaluator-typed field and a slice-of-struct-pointer field
 	var node *types.Named
 	innerIdx, chainIdx := -1, -1
